@@ -6,6 +6,7 @@ import (
 	"encoding/json"
 	"fmt"
 	"os"
+	"os/exec"
 	"path/filepath"
 	"sort"
 	"strconv"
@@ -27,6 +28,7 @@ type Options struct {
 	NoEvidence bool
 	Verbose    bool
 	MutSummary string // file with the output of tools/mutations.sh for this property (thorough tier)
+	Patch      string // unified diff applied to copies of the affected files and loaded as an overlay (the tree is not touched)
 }
 
 // KnownFile is /verif/known_findings.json.
@@ -87,6 +89,14 @@ func Main(o Options) int {
 		if o.Property == "" {
 			o.Property = m.Property
 		}
+	}
+	if o.Patch != "" {
+		ov, err := patchOverlay(o.Repo, o.Patch)
+		if err != nil {
+			fmt.Printf("PATCH %s: SKIPPED (%v)\n", o.Patch, err)
+			return 3
+		}
+		overlay = ov
 	}
 	prog, err := load.Load(load.Options{Dir: o.Repo, Overlay: overlay})
 	if err != nil && mut != nil {
@@ -547,4 +557,58 @@ func runAll(ctx *rules.Ctx, o Options) int {
 		}
 	}
 	return rc
+}
+
+// patchOverlay applies a unified diff (git format, -p1) to copies of the files
+// it names and returns them as an overlay; the repository itself is not touched.
+func patchOverlay(repo, diff string) (map[string][]byte, error) {
+	b, err := os.ReadFile(diff)
+	if err != nil {
+		return nil, err
+	}
+	var files []string
+	for _, l := range strings.Split(string(b), "\n") {
+		if strings.HasPrefix(l, "+++ b/") {
+			files = append(files, strings.TrimSpace(strings.TrimPrefix(l, "+++ b/")))
+		}
+	}
+	if len(files) == 0 {
+		return nil, fmt.Errorf("no files in diff")
+	}
+	tmp, err := os.MkdirTemp("", "crsverif-patch")
+	if err != nil {
+		return nil, err
+	}
+	defer os.RemoveAll(tmp)
+	for _, f := range files {
+		src, err := os.ReadFile(filepath.Join(repo, f))
+		if err != nil {
+			if os.IsNotExist(err) {
+				continue // file created by the patch
+			}
+			return nil, err
+		}
+		dst := filepath.Join(tmp, f)
+		if err := os.MkdirAll(filepath.Dir(dst), 0o755); err != nil {
+			return nil, err
+		}
+		if err := os.WriteFile(dst, src, 0o644); err != nil {
+			return nil, err
+		}
+	}
+	abs, _ := filepath.Abs(diff)
+	cmd := exec.Command("patch", "-s", "-p1", "-i", abs)
+	cmd.Dir = tmp
+	if out, err := cmd.CombinedOutput(); err != nil {
+		return nil, fmt.Errorf("patch does not apply: %s", strings.TrimSpace(string(out)))
+	}
+	ov := map[string][]byte{}
+	for _, f := range files {
+		nb, err := os.ReadFile(filepath.Join(tmp, f))
+		if err != nil {
+			continue
+		}
+		ov[filepath.Join(repo, f)] = nb
+	}
+	return ov, nil
 }
